@@ -31,6 +31,16 @@ CHECKS = {
               "runs are bounded."),
         note=TRUST + "; list '+=' extends in place; pull/receive_reward alternate (used by the T-HOO traversal-exit argument only)",
         ref="DESIGN.md section 4-C03"),
+    "C14": dict(
+        engine="E4 scans + E5 absint",
+        technique="source/effect scans over the AST: forbidden-source census, shared-state census, alias+mutation analysis of the user's domain (+E5 for partitions)",
+        text=("Static non-interference: in PyXAB/algos and PyXAB/partition there is no clock/entropy/identity/hash-order "
+              "source other than np.random.* on the global generator, no class-level/module-level mutable state, mutable "
+              "default, global, memoising decorator or store through a class object, and no store/del/in-place op/mutating "
+              "method can hit a value aliasing the user's domain. Replay equality and isolation follow from these facts; "
+              "they are not observed by running anything."),
+        note=TRUST + "; numpy's global generator is deterministic given seed and call sequence; dict order is insertion order",
+        ref="DESIGN.md section 4-C14"),
 }
 
 NOT_YET = "checker under construction in this round (see DESIGN.md section 0 for the clause it will decide)"
